@@ -200,6 +200,13 @@ public:
 	outfile.close();
 	if (!ok)
 	  return false;
+	if (!outfile)
+	  {
+	    // The data was buffered, so this is where we find out
+	    // about most write failures (for example a full disc).
+	    std::cerr << output_body_file << ": " << strerror(errno) << "\n";
+	    return false;
+	  }
 	const string inf_file_name = output_body_file + ".inf";
 	if (!create_inf_file(inf_file_name, crc.get(), entry))
 	  {
